@@ -2,10 +2,11 @@
 from __future__ import annotations
 from classify_checks import *
 import props.c01_names as N
+import props.c01_star as S
 
 PID = "C01"
-THEOREMS = CLOSURE_THEOREMS + ["PauLie.Tie.census_tie"] + N.EXTRA_THEOREMS
-IMPORTS = CLOSURE_IMPORTS + ["PauLieVerif.Proofs.TieCensus"] + N.EXTRA_IMPORTS
+THEOREMS = CLOSURE_THEOREMS + ["PauLie.Tie.census_tie"] + N.EXTRA_THEOREMS + S.EXTRA_THEOREMS
+IMPORTS = CLOSURE_IMPORTS + ["PauLieVerif.Proofs.TieCensus"] + N.EXTRA_IMPORTS + S.EXTRA_IMPORTS
 
 def batch_oracle(lines, outs):
     colls = [inputs_of(l) for l in lines]
@@ -53,7 +54,7 @@ def build_streams(rng, tier):
         Stream("exhaustive-small", exhaustive_small_lines(), h, **kw),
         Stream("structured+random", lines, h, **kw),
         history_stream("C01", rng, tier),
-    ] + N.extra_streams(rng, tier)
+    ] + N.extra_streams(rng, tier) + S.extra_streams(rng, tier)
 
 RULE = ("collections from the structured generator (random dense/sparse, canonical stars by census realised as Pauli strings, "
         "obfuscated by contractions with dependent products / duplicates / identity injected, paths, commuting sets, disjoint unions, "
@@ -71,5 +72,7 @@ def main(tier):
 def replay(path):
     r = json.load(open(path)); line = r.get("line")
     out = impl_classify.handle(line); why = batch_oracle([line], [out])[0]
+    if str(r.get("stream", "")).startswith("closed-form:"):
+        why = why or S.batch_oracle([line], [out])[0]
     print("line:", line); print("implementation:", out); print("model:", run_model([line])[0]); print("oracle:", why or "holds")
     return 1 if why else 0
